@@ -10,19 +10,13 @@ _OUT = ("switch_ call-shape normalisation in front of wire_switch (operator fron
         "re-pointed (REF) inputs; pause/resume")
 reg("C12",
     name="C12_switch", src=_SRC, anchor_files=_ANCH,
-    quick=dict(defs=dict(NCYC=4, KEYT=0, RELOADS=2, DEFAULTS=2), symx=dict(shards=16, **{"max-wall": 900})),
-    thorough=dict(defs=dict(NCYC=5, KEYT=0, RELOADS=2, DEFAULTS=2), symx=dict(shards=16, **{"max-wall": 3000, "shard-depth": 8})),
+    quick=dict(defs=dict(CONFIGS="{0,4},{1,3}", RELOADS=2, DEFAULTS=2), symx=dict(shards=16, **{"max-wall": 900})),
+    thorough=dict(defs=dict(CONFIGS="{0,5},{1,4}", RELOADS=2, DEFAULTS=2), symx=dict(shards=16, **{"max-wall": 3000, "shard-depth": 8})),
     reach=["end", "switched", "three_switches", "returned_to_earlier_key", "switch_and_input_tick_same_cycle", "switched_away_with_pending_timer",
-           "reload_on_same_key", "same_key_tick_without_reload", "default_branch_selected", "branch_timer_fired", "selected_before_input_valid"],
-    bounds="int keys; " + _B + "; the unmatched key 3 is only scripted when a default branch exists (see C12_switch_str for the error case)",
-    outside=_OUT,
-    )
-reg("C12",
-    name="C12_switch_str", src=_SRC, anchor_files=_ANCH,
-    quick=dict(defs=dict(NCYC=3, KEYT=1, RELOADS=2, DEFAULTS=2), symx=dict(shards=16, **{"max-wall": 900})),
-    thorough=dict(defs=dict(NCYC=4, KEYT=1, RELOADS=2, DEFAULTS=2), symx=dict(shards=16, **{"max-wall": 3000, "shard-depth": 8})),
-    reach=["end", "switched", "unmatched_key_throws", "default_branch_selected", "switched_away_with_pending_timer", "reload_on_same_key"],
-    bounds="string keys 'k0'..'k3'; " + _B + "; without default branch the unmatched key 'k3' must make run() throw (and only then)",
+           "reload_on_same_key", "same_key_tick_without_reload", "default_branch_selected", "branch_timer_fired", "selected_before_input_valid",
+           "unmatched_key_throws"],
+    bounds="configurations {key type, NCYC}: quick {int,4},{str,3}; thorough {int,5},{str,4}; " + _B + "; with int keys the unmatched key 3 is only scripted "
+           "when a default branch exists; with string keys 'k0'..'k3' it is also scripted without default branch and must make run() throw (and only then)",
     outside=_OUT,
     assumptions=["string keys are used for the unmatched-key error because the int key's error message is rendered through std::ostringstream, which the "
                  "symbolic engine cannot execute (external libstdc++ object)"],
